@@ -296,3 +296,34 @@ Theorem C18_text_po_group_position : forall text ver blocks sf gs c m p col gpo 
   exists q, dget (intf_pos (interface c)) name = Some q /\ q < List.length col /\
             nth q col UNASSIGNED = interpret ch.
 Proof. exact text_po_group_position. Qed.
+
+(** * Source tie for StilFile._maps (stil.py): the TRANSLATED source is the hand model.
+    Gen/StilMapsSrc.v is regenerated from the current text of stil.py on every run (translate/gen_stil_maps.py, fail-closed);
+    [StilFile__maps_src] computes on Python values (Model/DefRouteSrcLib.v [pyv], dicts / bool locals / node objects of
+    Model/StilMapsSrcLib.v), [None] = the code raised (KeyError of a group / cell name that is no interface name, of a missing
+    '_pi' / '_po' group; IndexError of chain[0] on an empty chain list).  For EVERY circuit (its s_nodes = [interface c]), all
+    signal groups and all scan chains whose lists are non-empty (the transformer always builds [scan_in] + cells + [scan_out]) the
+    translated _maps returns exactly what [maps_gen true] (interface positions by name, _pi / _po maps, per chain the scan map
+    and the scan-in / scan-out inversion vectors from the two passes over chain[1:-1]) returns, and raises exactly when the
+    model yields None.  [src_view] reads logic.mvarray(list of bools) -- an uninterpreted constructor in the translation -- as
+    the model does ([mv_of_bools]); [model_view] writes names / positions of the model as Python values (both injective). *)
+From KV Require Import Model.DefRouteSrcLib Model.StilMapsSrcLib Gen.StilMapsSrc Proofs.StilMapsSrcProofs.
+Theorem C18_maps_source_is_model : forall (groups chains : sdict (list string)) (c : scircuit),
+  Forall (fun ch : list string => ch <> []) (map snd chains) ->
+  option_map src_view (StilFile__maps_src (enc_stil groups chains) (enc_circ c))
+  = option_map model_view (maps_gen true groups chains c).
+Proof. exact maps_source_is_model. Qed.
+(* non-vacuity: ports pi0 si so, flip-flops a b, ONE chain  si ! a b ! so  (an inverter directly behind the scan-in port and one
+   directly in front of the scan-out port): the chain is in the domain, the translated code returns positions [b; a] = [4; 3]
+   under both ports and inversion [true; true] for scan-in AND scan-out (each cell sees exactly one marker from either side),
+   and so does the model *)
+Theorem C18_maps_source_nonvacuous :
+  Forall (fun ch : list string => ch <> []) (map snd nv_chains)
+  /\ StilFile__maps_src (enc_stil nv_groups nv_chains) (enc_circ nv_circuit)
+     = Some (map enc_node (interface nv_circuit), enc_nats [1; 0], enc_nats [2],
+             [(PStr "si", enc_nats [4; 3]); (PStr "so", enc_nats [4; 3])],
+             [(PStr "si", Mvarray [true; true]); (PStr "so", Mvarray [true; true])])
+  /\ option_map maps_view (maps_gen true nv_groups nv_chains nv_circuit)
+     = Some (["pi0"; "si"; "so"; "a"; "b"]%string, [1; 0], [2], [("si", [4; 3]); ("so", [4; 3])]%string,
+             [("si", Arr [ONE; ONE]); ("so", Arr [ONE; ONE])]%string).
+Proof. exact maps_source_nonvacuous. Qed.
